@@ -28,7 +28,10 @@ HOSTILE = ['*/', '/*', '*/ int x; /*', '#include <x>', 'a\\', '\\', 'a\\\nb', ' 
            'L' * 300, 'é ü', '}', '};', 'namespace x {', '#define X', '#endif', '\n#error x', ' ', '', 'a\n', '\na',
            'a \nb ', '/', '/\n/', '\\\n', '\\\\', 'a\\ ', 'line1\\\nint spliced;', '<::', '%:define Y',
            '// ok\nint leaked;', '//\nint leaked2;', '\n'.join(f'line {i}' for i in range(14)), 'x\n' * 9,
-           '// This is generated content\nint z2;', 'Advanced Shell\nint z3;']
+           '// This is generated content\nint z2;', 'Advanced Shell\nint z3;'] + \
+          [('word ' * 400)[:n] for n in (78, 79, 80, 81, 98, 99, 100, 101, 118, 119, 120, 121, 156, 157, 158, 159, 160, 161,
+                                          200, 254, 255, 256, 257, 1000, 4100)] + \
+          ['x' * 70 + ' int folded_into_code;' + ' y' * 60, 'a' * 156 + ' b', ('1234567 ' * 30) + '\n' + ('abc ' * 50)]
 
 
 def union_split(text):
